@@ -163,63 +163,59 @@ theorem repr_truncated_reports_length (cls : Cls) (l : Bits) (pos : Nat) (h : l.
   · rw [hs]
     simp only [List.append_assoc]
 
-/-! ### known finding `array-long-trailing` -/
+/-! ### `Array.__repr__`: the trailing bits -/
 
-/-- When more than `4 * MAX_CHARS` trailing bits are left over, `Array.__repr__` embeds the *truncated* repr of the
-    trailing bits, and the `  # length=N` comment of that repr swallows the closing parenthesis: the text ends
-    `…')  # length=N)`, so it is not an expression that evaluates back to the Array.  (With at most
-    `4 * MAX_CHARS` trailing bits the embedded repr is the faithful one of `repr_roundtrip`.) -/
-theorem arrayRepr_long_trailing_commented (k : Kind) (n : Nat) (data : Bits)
-    (h : array_long_trailing n data = true) :
-    ∃ pre, arrayRepr k n data = pre ++ lenComment ++ natDec (data.length % n) ++ [')'] := by
-  have h : data.length % n > 4 * Gen.maxChars := by simpa [array_long_trailing] using h
-  have ht : data.length % n ≠ 0 := by omega
+/-- Whatever the number of trailing bits, `Array.__repr__` ends with a text that evaluates back to exactly those bits
+    as a `BitArray`: their faithful `repr` when there are at most `4 * MAX_CHARS` of them, spelled out in binary
+    otherwise.  (Before /repo 059409d the long case embedded the truncated repr, whose `# length=` comment swallowed
+    the closing parenthesis — finding `array-long-trailing`, fixed.) -/
+theorem arrayRepr_trailing (k : Kind) (n : Nat) (data : Bits) (ht : data.length % n ≠ 0) :
+    ∃ pre tr, arrayRepr k n data = pre ++ tr ++ [')'] ∧
+      parseRepr tr = .ok (.bitArray, data.drop (data.length - data.length % n), 0) := by
   have hle : data.length % n ≤ data.length := Nat.mod_le _ _
   have hlen : (data.drop (data.length - data.length % n)).length = data.length % n := by
     rw [List.length_drop]; omega
-  obtain ⟨body, hb, _⟩ := repr_truncated_reports_length .bitArray
-    (data.drop (data.length - data.length % n)) 0 (by rw [hlen]; exact h)
-  rw [hlen] at hb
-  unfold arrayRepr
-  simp only [ht, if_false, reprFormAlg_msb0, hb]
-  refine ⟨"Array('".toList ++ (k.name ++ if k = Kind.bool then [] else natDec n) ++ "', ".toList ++
-      (['['] ++ joinSep commaSp (List.map (itemRepr k) (items n data)) ++ [']']) ++
-      (", trailing_bits=".toList ++ body), ?_⟩
-  simp only [List.append_assoc]
+  by_cases hlong : (data.drop (data.length - data.length % n)).length > Gen.maxChars * 4
+  · refine ⟨"Array('".toList ++ (k.name ++ if k = Kind.bool then [] else natDec n) ++ "', ".toList ++
+        (['['] ++ joinSep commaSp (List.map (itemRepr k) (items n data)) ++ [']']) ++ ", trailing_bits=".toList,
+      Cls.nameStr .bitArray ++ ['(', '\''] ++ (pre0b ++ binDigits (data.drop (data.length - data.length % n))) ++ ['\'']
+        ++ (if (0 : Nat) ≠ 0 then posEq ++ natDec 0 else []) ++ [')'] ++ [], ?_, ?_⟩
+    · unfold arrayRepr
+      simp only [ht, hlong, if_true, if_false, List.append_assoc, ne_eq, not_true_eq_false, List.append_nil,
+        List.nil_append, List.cons_append]
+    · refine parseRepr_text .bitArray _ _ 0 ?_ (parseAuto_binLit _ (by omega)) (Nat.zero_le _) (fun _ => rfl)
+      have hb : '\'' ∉ binDigits (data.drop (data.length - data.length % n)) :=
+        ((binDigits_digStr _).mono (by omega : 2 ≤ 16)).not_mem dig_ne_quote
+      have h2 : '\'' ∉ pre0b := by decide
+      simp only [List.mem_append, not_or]
+      exact ⟨h2, hb⟩
+  · refine ⟨"Array('".toList ++ (k.name ++ if k = Kind.bool then [] else natDec n) ++ "', ".toList ++
+        (['['] ++ joinSep commaSp (List.map (itemRepr k) (items n data)) ++ [']']) ++ ", trailing_bits=".toList,
+      reprForm .bitArray (data.drop (data.length - data.length % n)) 0, ?_, ?_⟩
+    · unfold arrayRepr
+      simp only [ht, hlong, if_false, reprFormAlg_msb0, List.append_assoc]
+    · exact repr_roundtrip .bitArray _ 0 (by omega) (Nat.zero_le _) (fun _ => rfl)
 
-/-- Outside the region the trailing bits are embedded by their faithful `repr` (the one of `repr_roundtrip`):
-    `…, trailing_bits=BitArray('<str of the bits>'))`. -/
-theorem arrayRepr_trailing_partial (k : Kind) (n : Nat) (data : Bits)
-    (h : array_long_trailing n data = false) (ht : data.length % n ≠ 0) :
-    ∃ pre, arrayRepr k n data = pre ++ reprForm .bitArray (data.drop (data.length - data.length % n)) 0 ++ [')'] ∧
-      parseRepr (reprForm .bitArray (data.drop (data.length - data.length % n)) 0)
-        = .ok (.bitArray, data.drop (data.length - data.length % n), 0) := by
-  have h : ¬ data.length % n > 4 * Gen.maxChars := by simpa [array_long_trailing] using h
-  have hle : data.length % n ≤ data.length := Nat.mod_le _ _
-  have hlen : (data.drop (data.length - data.length % n)).length = data.length % n := by
-    rw [List.length_drop]; omega
-  refine ⟨"Array('".toList ++ (k.name ++ if k = Kind.bool then [] else natDec n) ++ "', ".toList ++
-      (['['] ++ joinSep commaSp (List.map (itemRepr k) (items n data)) ++ [']']) ++ ", trailing_bits=".toList, ?_, ?_⟩
-  · unfold arrayRepr
-    simp only [ht, if_false, reprFormAlg_msb0, List.append_assoc]
-  · exact repr_roundtrip .bitArray _ 0 (by rw [hlen]; omega) (Nat.zero_le _) (fun _ => rfl)
+/-! ### `repr` of an object created from a file -/
 
-/-! ### known finding `file-repr-after-mutation` -/
+/-- `Bits` / `ConstBitStream` created from a file keep showing the file (they cannot change), and that text evaluates
+    to their value: the whole content of the file. -/
+theorem file_repr_immutable (cls : Cls) (fname : Str) (file : Bits) (pos : Nat) (h : cls.isMutable = false) :
+    reprFileObj cls fname .none file pos = reprFileAlg cls fname file.length pos ∧
+    evalFileRepr file file.length = .ok file := by
+  constructor
+  · simp [reprFileObj, applyMut, h]
+  · simp [evalFileRepr]
 
-/-- An object still holding the file's content prints a text that evaluates to its value … -/
-theorem file_repr_partial (m : FileMut) (file : Bits) (h : file_repr_after_mutation m = false) :
-    evalFileRepr file (applyMut m file).length = .ok (applyMut m file) := by
-  have hm : m = .none := by cases m <;> simp_all [file_repr_after_mutation]
-  subst hm
-  simp [evalFileRepr, applyMut]
-
-/-- … but `_filename` survives every mutation of a `BitArray`/`BitStream`, so after one the text names the file and
-    the current length, which is another value (or no value at all). -/
-theorem file_repr_mutated_witness :
-    (∃ m file, file_repr_after_mutation m = true ∧ ∃ v, evalFileRepr file (applyMut m file).length = .ok v ∧ v ≠ applyMut m file) ∧
-    (∃ m file, file_repr_after_mutation m = true ∧ evalFileRepr file (applyMut m file).length = .error .value) := by
-  refine ⟨⟨.invert0, [true, false, false, false, false, false, false, false], by decide, _, rfl, by decide⟩,
-    ⟨.append1, [true, false, false, false, false, false, false, false], by decide, by decide⟩⟩
+/-- `BitArray` / `BitStream` created from a file are described by their current bits, whatever was done to them
+    since: evaluating the text rebuilds class, value and pos (for values that are not truncated).  (Before /repo
+    19a4a37 the text kept naming the file after a mutation — finding `file-repr-after-mutation`, fixed.) -/
+theorem file_repr_mutable (cls : Cls) (fname : Str) (m : FileMut) (file : Bits) (pos : Nat) (h : cls.isMutable = true)
+    (hl : (applyMut m file).length ≤ 4 * Gen.maxChars) (hp : pos ≤ (applyMut m file).length)
+    (hc : cls.hasPos = false → pos = 0) :
+    parseRepr (reprFileObj cls fname m file pos) = .ok (cls, applyMut m file, pos) := by
+  simp only [reprFileObj, h, if_true, reprFormAlg_msb0]
+  exact repr_roundtrip cls _ pos hl hp hc
 
 /-! ### non-vacuity -/
 
@@ -230,5 +226,10 @@ example : (List.replicate 33 true).length ≤ 4 * Gen.maxChars := by decide
 example : reprForm .bitStream [true, false, true, false] 3
     = "BitStream('0xa', pos=3)".toList := by decide
 example : parseRepr "BitStream('0xa', pos=3)".toList = .ok (.bitStream, [true, false, true, false], 3) := by decide
+example : arrayRepr .uint 4 [true, false, true, false, true]
+    = "Array('uint4', [10], trailing_bits=BitArray('0b1'))".toList := by decide
+example : reprFileObj .bitArray ['F'] .invert0 [false, true, true, true] 0 = "BitArray('0xf')".toList := by decide
+example : reprFileObj .bits "'F'".toList .none [false, true, true, true] 0 = "Bits(filename='F', length=4)".toList := by
+  decide
 
 end BM.C19
